@@ -54,6 +54,12 @@ type Obligation struct {
 	Stubs     []string          `json:"stubs,omitempty"`
 	Outside   []string          `json:"outside,omitempty"`
 	Solver    string            `json:"solver,omitempty"`
+	AbstractConv bool           `json:"abstract_conv,omitempty"`
+	ExactFloat bool             `json:"exact_float,omitempty"`
+	Kind      string            `json:"kind,omitempty"` // "" (go harness) | "asm"
+	AsmFile   string            `json:"asm_file,omitempty"`
+	AsmFunc   string            `json:"asm_func,omitempty"`
+	AsmSpec   string            `json:"asm_spec,omitempty"` // dot | euclid
 }
 
 type KnownFinding struct {
@@ -328,6 +334,7 @@ func cmdCheck(args []string) int {
 	}
 	var results []*obResult
 	var jobsList []*job
+	var asmJobs []*obResult
 	for _, o := range obs {
 		tier := o.Quick
 		if *tierName == "thorough" {
@@ -341,6 +348,10 @@ func cmdCheck(args []string) int {
 		}
 		or := &obResult{ob: o, tier: tier}
 		results = append(results, or)
+		if o.Kind == "asm" {
+			asmJobs = append(asmJobs, or)
+			continue
+		}
 		params := map[string]int64{}
 		for k, v := range knownParams {
 			params[k] = v
@@ -366,7 +377,7 @@ func cmdCheck(args []string) int {
 		for i := 0; i < n; i++ {
 			spec := symgo.RunSpec{RepoDir: repoDir(), HarnessDir: filepath.Join(verifDir(), "harness"), Pkg: o.Pkg, Fn: o.Fn, Params: params,
 				Sched: o.Sched, Preempt: tier.Preempt, Select: o.Select, LeakCheck: o.LeakCheck, Unwind: tier.Unwind, MaxPaths: tier.MaxPaths,
-				MaxSteps: tier.MaxSteps, MapOrder: o.MapOrder, TimeoutMs: qms, Redirects: o.Redirects, SampleEnds: nval, Solver: o.Solver}
+				MaxSteps: tier.MaxSteps, MapOrder: o.MapOrder, TimeoutMs: qms, Redirects: o.Redirects, SampleEnds: nval, Solver: o.Solver, AbstractConv: o.AbstractConv, ExactFloat: o.ExactFloat}
 			if n > 1 {
 				spec.SplitN, spec.SplitI, spec.SplitDepth = n, i, tier.SplitDepth
 				if spec.SplitDepth == 0 {
@@ -437,6 +448,24 @@ func cmdCheck(args []string) int {
 			}
 			partial[j.or] = append(partial[j.or], &res)
 		}(j)
+	}
+	for _, or := range asmJobs {
+		wg.Add(1)
+		sem <- struct{}{}
+		go func(or *obResult) {
+			defer wg.Done()
+			defer func() { <-sem }()
+			ts := time.Now()
+			r := runAsmObligation(or.ob, or.tier)
+			mu.Lock()
+			defer mu.Unlock()
+			or.wall = time.Since(ts).Seconds()
+			if r.Error != "" {
+				or.errs = append(or.errs, r.Error)
+				return
+			}
+			partial[or] = append(partial[or], r)
+		}(or)
 	}
 	wg.Wait()
 	for _, or := range results {
